@@ -29,7 +29,15 @@ def run_one(m):
     try:
         for sub in ("include", "lib"):
             shutil.copytree(os.path.join(REPO, sub), os.path.join(d, sub))
-        edits = m.get("edits") or [{"file": m["file"], "old": m["old"], "new": m["new"], "count": m.get("count", 1)}]
+        if m.get("patch"):
+            # a seeded change kept under /verif/seeded: apply its patch.diff to the scratch copy
+            pr = subprocess.run(["patch", "-p1", "-s", "-i", m["patch"]], cwd=d, stdout=subprocess.PIPE, stderr=subprocess.STDOUT,
+                                universal_newlines=True)
+            if pr.returncode != 0:
+                return m, "STALE", "seed patch does not apply: " + pr.stdout[-300:]
+            edits = []
+        else:
+            edits = m.get("edits") or [{"file": m["file"], "old": m["old"], "new": m["new"], "count": m.get("count", 1)}]
         for e in edits:
             p = os.path.join(d, e["file"])
             with open(p) as fh:
@@ -69,6 +77,14 @@ def main():
     a = ap.parse_args()
     with open(os.path.join(HERE, "mutants.json")) as fh:
         ms = json.load(fh)
+    # seeded changes (made by sub-agents that saw only the property text) are permanent members of the corpus
+    import glob
+    for mp in sorted(glob.glob(os.path.join(VERIF, "seeded", "S*", "meta.json"))):
+        with open(mp) as fh:
+            meta = json.load(fh)
+        for prop in meta.get("caught_by", []):
+            ms.append({"id": "seed-" + os.path.basename(os.path.dirname(mp))[:3] + "-" + prop, "prop": prop, "expect": "violation",
+                       "patch": os.path.join(os.path.dirname(mp), "patch.diff")})
     if a.only:
         ms = [m for m in ms if a.only in m["id"]]
     if a.prop:
